@@ -470,9 +470,25 @@ func (r *Runner) assignVal(name string, prev expand.Variable, as *syntax.Assign,
 	}
 	if valType == "-A" {
 		amap := make(map[string]string, len(elems))
-		for _, elem := range elems {
-			k := r.literal(elem.Index.(*syntax.Word))
-			amap[k] = r.literal(elem.Value)
+		for i := 0; i < len(elems); i++ {
+			elem := elems[i]
+			switch index := elem.Index.(type) {
+			case *syntax.Word:
+				amap[r.literal(index)] = r.literal(elem.Value)
+			case nil:
+				// Like bash 5.1 and later, elements without a subscript
+				// are alternating keys and values: declare -A a=(k1 v1 k2 v2)
+				k, v := r.literal(elem.Value), ""
+				if i+1 < len(elems) && elems[i+1].Index == nil {
+					i++
+					v = r.literal(elems[i].Value)
+				}
+				amap[k] = v
+			default:
+				// a subscript which the parser took as an arithmetic expression
+				r.errf("%s: unsupported subscript for an associative array\n", name)
+				r.exit.code = 1
+			}
 		}
 		if !as.Append {
 			prev.Kind = expand.Associative
